@@ -107,6 +107,51 @@ theorem freelist_idempotent (s : State) (hl : s.cfg.lookupFirst = true) (k a : N
   unfold alloc
   simp [hl, h]
 
+/-- Concurrent callers.  Every Allocate runs under the pool's mutex, so a BURST of n+1 concurrent requests
+    of one key is some sequence of n+1 calls (`allocN`).  That sequence is indistinguishable from ONE
+    allocate: the state after the burst is the state after a single call, and every caller of the burst
+    receives the answer of that single call (the same address, or "exhausted" for all). -/
+theorem burst_equals_single_allocate (s : State) (hl : s.cfg.lookupFirst = true) (k n : Nat) :
+    (allocN s k (n + 1)).1 = (alloc s k).1 ∧ ∀ o, o ∈ (allocN s k (n + 1)).2 → o = (alloc s k).2 := by
+  -- once a call leaves the state unchanged, every further call does the same and answers the same
+  have fix : ∀ (t : State) (o : Obs), alloc t k = (t, o) → ∀ m,
+      (allocN t k m).1 = t ∧ ∀ o', o' ∈ (allocN t k m).2 → o' = o := by
+    intro t o ht m
+    induction m with
+    | zero => simp [allocN]
+    | succ m ih =>
+      simp only [allocN, ht]
+      refine ⟨ih.1, ?_⟩
+      intro o' ho'
+      rcases List.mem_cons.mp ho' with e | e
+      · exact e
+      · exact ih.2 o' e
+  -- the first call reaches such a state
+  have again : alloc (alloc s k).1 k = ((alloc s k).1, (alloc s k).2) := by
+    cases hk : s.held.lookup k with
+    | some a =>
+      have e := freelist_idempotent s hl k a hk
+      rw [e]; exact e
+    | none =>
+      cases hav : s.avail with
+      | nil =>
+        have e : alloc s k = (s, .exhausted) := by simp [alloc, hl, hk, hav]
+        rw [e]; exact e
+      | cons a rest =>
+        have e : alloc s k = ({ s with avail := rest, held := AMap.insert s.held k a, rev := if s.cfg.hasRev then AMap.insert s.rev a k else s.rev }, .okAddr a) := by
+          simp [alloc, hl, hk, hav]
+        rw [e]
+        exact freelist_idempotent
+          { s with avail := rest, held := AMap.insert s.held k a, rev := if s.cfg.hasRev then AMap.insert s.rev a k else s.rev }
+          hl k a (AMap.lookup_insert_self _ _ _)
+  have h := fix (alloc s k).1 (alloc s k).2 again n
+  simp only [allocN]
+  refine ⟨h.1, ?_⟩
+  intro o ho
+  rcases List.mem_cons.mp ho with e | e
+  · exact e
+  · exact h.2 o e
+
 /-- Forward map and reverse index (pool.LocalPool.ipToSub) agree in every reachable state. -/
 theorem freelist_lookups_agree (c : Cfg) (hc : GoodCfg c) (hr : c.hasRev = true) (ops : List Op) (k a : Nat) :
     (run (init c) ops).held.lookup k = some a ↔ (run (init c) ops).rev.lookup a = some k := by
